@@ -908,3 +908,52 @@ def iter_find(ctx):
         ex.assume(cur, z3.Not(p.t))
     outs.append((cur, mk_option(ex, None)))
     return outs
+
+
+@contract(r'^(?:std::net::)?Ipv6Addr::to_ipv4$')
+def ipv6_to_ipv4(ctx):
+    """Some(a.b.c.d) for ::a.b.c.d (IPv4-compatible) and ::ffff:a.b.c.d (IPv4-mapped), else None"""
+    ex, st = ctx.ex, ctx.st
+    v = ex.deref(st, ctx.args[0])
+    v = _as_ipv6(ctx, v)
+    b = v.fields[0]
+    zero10 = z3.And([b.at(i) == BV(0, 8) for i in range(10)])
+    mid = z3.Concat(b.at(10), b.at(11))
+    some = z3.And(zero10, z3.Or(mid == BV(0, 16), mid == BV(0xffff, 16)))
+    v4 = ipv4(simp(z3.Concat(b.at(12), b.at(13), b.at(14), b.at(15))))
+    return Agg('Option', {}, simp(z3.If(some, BV(1, 64), BV(0, 64))), {1: {0: v4}}, ex.si.enums['Option'])
+
+
+@contract(r'^(?:std::net::)?Ipv6Addr::to_ipv4_mapped$')
+def ipv6_to_ipv4_mapped(ctx):
+    ex, st = ctx.ex, ctx.st
+    v = _as_ipv6(ctx, ex.deref(st, ctx.args[0]))
+    b = v.fields[0]
+    some = z3.And(z3.And([b.at(i) == BV(0, 8) for i in range(10)]), z3.Concat(b.at(10), b.at(11)) == BV(0xffff, 16))
+    v4 = ipv4(simp(z3.Concat(b.at(12), b.at(13), b.at(14), b.at(15))))
+    return Agg('Option', {}, simp(z3.If(some, BV(1, 64), BV(0, 64))), {1: {0: v4}}, ex.si.enums['Option'])
+
+
+@contract(r'^(?:std::option::)?Option::<.*>::map_or::<.*>$')
+def option_map_or(ctx):
+    """Option::map_or(default, f) where f is an enum/tuple-struct constructor path (e.g. IpAddr::V4) or a closure"""
+    ex, st = ctx.ex, ctx.st
+    v, _ = to_enum(ex, st, ctx.args[0])
+    default, f = ctx.args[1], ctx.args[2]
+    some = v.variants.get(1, {}).get(0)
+    mapped = None
+    tag = f.tag if isinstance(f, Opaque) else None
+    if isinstance(tag, str):
+        segs = strip_generics(tag).split('::')
+        if len(segs) >= 2 and segs[-2] in ex.si.enums and segs[-1] in ex.si.enums[segs[-2]] and some is not None:
+            vs = ex.si.enums[segs[-2]]
+            mapped = Agg(segs[-2], {}, vs.index(segs[-1]), {vs.index(segs[-1]): {0: some}}, vs)
+    if mapped is None:
+        return NotImplemented
+    d = v.discr
+    if isinstance(d, int):
+        return mapped if d == 1 else default
+    try:
+        return ex.ite(d == BV(1, 64), mapped, default)
+    except Unsupported:
+        return NotImplemented
